@@ -48,7 +48,11 @@ def run(tier, seed):
                 h = list(order)
                 if variant == 1:                       # redeploys and a removed extra service on the way
                     extra = dict(rnd.choice(tbl))
-                    extra = dict(extra, name=b"gone", hosts=[b"gone.example.org"], prefixes=[b"/"])
+                    # a service that comes and goes on hosts the request matrix asks for: its bindings must leave no
+                    # trace (a request for its former exact host falls back to the wildcard / default level again)
+                    gone_hosts = rnd.sample([b"z.b.c", b"other", b"www.example.com", b"y.x.a.b.c", b"c", b"single"], rnd.choice([1, 2]))
+                    extra = dict(extra, name=b"gone", hosts=gone_hosts, prefixes=rnd.choice([[b"/"], [b"/api"], [b"/", b"/a"]]),
+                                 targets=[{"name": b"tgone:80", "healthy": True}])
                     h = [extra] + h[:1] + h + [{"op": "remove", "name": b"gone"}]
                 if variant == 2:                       # through a restart
                     k = rnd.randint(0, len(h))
